@@ -111,6 +111,15 @@ func (g G) taskStates(l string) []task.State {
 			out = append(out, s)
 		}
 	}
+	// "arbitrary arguments": a state may be listed twice and in any order (the guard is a set)
+	if g.uni(4, l+".dup") == 0 {
+		out = append(out, out[g.uni(len(out), l+".dupi")])
+	}
+	if g.uni(4, l+".rev") == 0 {
+		for i, j := 0, len(out)-1; i < j; i, j = i+1, j-1 {
+			out[i], out[j] = out[j], out[i]
+		}
+	}
 	return out
 }
 
